@@ -466,6 +466,15 @@ func judge(c tcase, r result) (v verdict) {
 				return fail("rep:success-with-fewer-acknowledgements-than-required:"+c.Kind, "REP rule #%d needs %d nodes of %v, %d acknowledged", i, p.Reps[i], p.Lists[i], got)
 			}
 		}
+		if c.Kind == "lock" {
+			// a LOCK is broadcast to the EC nodes as well; the text gives no number, so only the minimum is
+			// demanded: acknowledged by at least one node of every EC rule's own list
+			for j := range p.EC {
+				if full&listMask(p.Lists[nRep+j]) == 0 {
+					return fail("lock:success-without-any-acknowledgement-from-an-EC-list", "LOCK acknowledged by no node of EC list #%d %v", j, p.Lists[nRep+j])
+				}
+			}
+		}
 		return v
 	}
 	// trusted REGULAR object: REP rules + node-side EC
@@ -803,8 +812,33 @@ func main() {
 			}
 		}
 	}
-	// REP+EC policies are NOT enumerated: the Inner Ring refuses such containers ("REP+EC rules are not
-	// supported yet", pkg/innerring/processors/container/process_container.go), so they cannot exist.
+	// REP+EC policies: the Inner Ring refuses such containers today ("REP+EC rules are not supported yet"),
+	// and a trusted REGULAR PUT into one panics (t.encodedECParts is indexed by the global rule index), so
+	// that kind is not enumerated for them. The other kinds (LOCK broadcast, client-sealed REGULAR, sealed EC
+	// part) are: they exercise the "EC list = list #(number of REP rules + i)" indexing with REP lists
+	// shorter and longer than the EC lists.
+	mixedKinds := []string{"lock", "sealed", "ec-part"}
+	addMixed := func(rules [][2]int, lens []int, reps []int) {
+		genLists(lens, func(lists [][]int, k int) {
+			jobs = append(jobs, job{policy{Lists: lists, Reps: reps, EC: rules}, k, mixedKinds})
+		})
+	}
+	for _, e := range ecRules {
+		for a := 1; a <= 3; a++ {
+			for rp := 1; rp <= a && rp <= 2; rp++ {
+				for l := e[0] + e[1]; l <= 4; l++ {
+					addMixed([][2]int{e}, []int{a, l}, []int{rp})
+				}
+			}
+		}
+	}
+	for a := 1; a <= 2; a++ {
+		for b := 1; b <= 2; b++ {
+			for l := 2; l <= 3; l++ {
+				addMixed([][2]int{{1, 1}}, []int{a, b, l}, []int{1, min(b, 2)})
+			}
+		}
+	}
 	_ = addEC
 	nEC := len(jobs) - nMain1 - nMain2 - nMain3
 
@@ -922,7 +956,7 @@ func main() {
 	r.Set("outcome_classes", len(classes))
 	r.Set("outcome_class_counts", cl)
 	r.Set("policies", map[string]int{"one_rep_rule": nMain1, "two_rep_rules": nMain2, "three_rep_rules": nMain3, "ec": nEC})
-	r.Rule(fmt.Sprintf("policies up to renaming of the 5 universe nodes (lists = ordered tuples of distinct nodes, overlapping in every way): 1 REP rule lists 1..4 copies 1..4; 2 REP rules lists 1..4 copies 1..4; 3 REP rules lists 1..%d copies 1..%d (3-rule policies use at most 4 distinct nodes; quick: 2-rule lists of 4 only with the trusted kind); EC-only 2/1 and 1/1 (one rule over total..%d nodes, two rules incl. identical ones over total..3 nodes); for REP policies whose copies sum to <= %d (one rule: 4) and the smaller EC policies EVERY valid initial placement policy (all limit vectors, every MaxReplicas, PreferLocal on/off); x object kind (trusted REGULAR = node-side EC, client-sealed REGULAR, LOCK broadcast, sealed EC part of every rule/index) x local node = every node of the policy or none x ALL 2^n healthy-node vectors. distinct non-trivial = distinct cases with a mixed healthy vector (neither all nor none) in which at least one node was contacted", max3, rep3, maxEC, initSum))
+	r.Rule(fmt.Sprintf("policies up to renaming of the 5 universe nodes (lists = ordered tuples of distinct nodes, overlapping in every way): 1 REP rule lists 1..4 copies 1..4; 2 REP rules lists 1..4 copies 1..4; 3 REP rules lists 1..%d copies 1..%d (3-rule policies use at most 4 distinct nodes; quick: 2-rule lists of 4 only with the trusted kind); EC-only 2/1 and 1/1 (one rule over total..%d nodes, two rules incl. identical ones over total..3 nodes); REP+EC (1 REP list of 1..3 nodes + EC over total..4 nodes, 2 REP lists of 1..2 + EC 1/1 over 2..3; kinds LOCK, sealed REGULAR and sealed EC part only); for REP policies whose copies sum to <= %d (one rule: 4) and the smaller EC policies EVERY valid initial placement policy (all limit vectors, every MaxReplicas, PreferLocal on/off); x object kind (trusted REGULAR = node-side EC, client-sealed REGULAR, LOCK broadcast, sealed EC part of every rule/index) x local node = every node of the policy or none x ALL 2^n healthy-node vectors. distinct non-trivial = distinct cases with a mixed healthy vector (neither all nor none) in which at least one node was contacted", max3, rep3, maxEC, initSum))
 	r.Exhaustive(!expired.Load())
 	r.Assume("each node answers deterministically (stores everything it is sent or refuses everything); the real code contacts nodes concurrently (WaitGroup.Go / errgroup), one Go-scheduler interleaving is observed per case - the oracle is schedule-independent (it only uses who acknowledged what)",
 		"the distribution target is assembled by an injected constructor mirroring Streamer.newDistrubutedWriter and driven like slicingTarget drives it (EC split modifier, WriteHeader, Write, Close); payload slicing, signature/format validation and the on-chain meta collection are outside this check",
